@@ -1,6 +1,1768 @@
-//! C20 — not built yet.
-use crate::core::Ctx;
+//! C20 — the literal macros (`ubig! ibig! fbig! dbig! rbig!` and their `static_` variants) build
+//! exactly the number that was written; literals outside the grammar are compile errors.
+//!
+//! Three layers (DESIGN §5 C20):
+//!  * pre-pass: the parse modules of `dashu-macros` are compiled (via `#[path]`) into a generated
+//!    driver `gen/c20_pre` and run on every enumerated token stream; the emitted token text of the
+//!    three code generators (const u32 / `from_le_bytes` / static word arrays) is decoded by a small
+//!    reader (`h20::decode`) and compared with the run-time parser and the reference parser;
+//!  * `gen/c20_ok`: real macro invocations compiled by rustc against the working tree and run:
+//!    macro value == run-time parse == reference parse (value, sign, precision);
+//!  * `gen/c20_err`: invocations the pre-pass saw rejected must each carry a compile error.
+
+#[path = "h20.rs"]
+mod h20;
+
+use crate::core::{guard, Ctx, Mode, Rec};
+use crate::uni::*;
+use h20::*;
+use num_bigint::{BigInt, BigUint};
+use num_traits::{One, Zero};
+use std::collections::BTreeMap;
+use std::str::FromStr;
+
+const P: &str = "C20";
+
+#[derive(Clone, Copy, PartialEq, Eq, Debug)]
+enum Fam {
+    U,
+    I,
+    F,
+    D,
+    R,
+}
+
+#[derive(Clone, Debug)]
+struct Case {
+    fam: Fam,
+    stat: bool,
+    /// the macro argument as written in Rust source
+    src: String,
+    /// the text handed to the run-time parser (token concatenation; without `base N`, without the
+    /// `~` marker, and for fbig! without the one documented underscore prefix)
+    text: String,
+    radix: Option<u32>,
+    relaxed: bool,
+    /// inside the documented macro grammar: must be accepted
+    doc: bool,
+    /// form name (class of the literal's spelling)
+    form: String,
+    /// 0 = pre-pass only, 1 = compiled in both tiers, 2 = compiled in the thorough tier
+    compile: u8,
+}
+
+impl Case {
+    fn mac(&self) -> String {
+        let b = match self.fam {
+            Fam::U => "ubig",
+            Fam::I => "ibig",
+            Fam::F => "fbig",
+            Fam::D => "dbig",
+            Fam::R => "rbig",
+        };
+        if self.stat {
+            format!("static_{}", b)
+        } else {
+            b.to_string()
+        }
+    }
+    fn show(&self) -> String {
+        format!("{}!({})", self.mac(), self.src)
+    }
+}
+
+// ---------------------------------------------------------------------------------------------
+// run-time parser of dashu (the property's own yardstick) and the reference parser
+
+fn fval_of<R: dashu_float::round::Round, const B: dashu_int::Word>(f: &dashu_float::FBig<R, B>) -> Val {
+    Val::Float { sig: i_to_ref(f.repr().significand()), exp: f.repr().exponent() as i64, base: B as u32, prec: f.precision() as u64 }
+}
+
+fn rt_parse(c: &Case) -> Result<Val, String> {
+    use dashu_float::{DBig, FBig};
+    use dashu_int::{IBig, UBig};
+    use dashu_ratio::{RBig, Relaxed};
+    let t = c.text.as_str();
+    let e = |e: dashu_base::ParseError| format!("{:?}", e);
+    let r = guard(|| match c.fam {
+        Fam::U => match c.radix {
+            Some(n) => UBig::from_str_radix(t, n).map_err(e),
+            None => UBig::from_str_with_radix_prefix(t).map(|v| v.0).map_err(e),
+        }
+        .map(|v| Val::Int(BigInt::from(u_to_ref(&v)))),
+        Fam::I => match c.radix {
+            Some(n) => IBig::from_str_radix(t, n).map_err(e),
+            None => IBig::from_str_with_radix_prefix(t).map(|v| v.0).map_err(e),
+        }
+        .map(|v| Val::Int(i_to_ref(&v))),
+        Fam::F => {
+            if c.radix.is_some() {
+                return Err("no `base N` form for floats".to_string());
+            }
+            <FBig>::from_str(t).map_err(e).map(|v| fval_of(&v))
+        }
+        Fam::D => {
+            if c.radix.is_some() {
+                return Err("no `base N` form for floats".to_string());
+            }
+            DBig::from_str(t).map_err(e).map(|v| fval_of(&v))
+        }
+        Fam::R => {
+            if c.relaxed {
+                match c.radix {
+                    Some(n) => Relaxed::from_str_radix(t, n).map_err(e),
+                    None => Relaxed::from_str_with_radix_prefix(t).map(|v| v.0).map_err(e),
+                }
+                .map(|v| Val::Ratio { n: i_to_ref(v.numerator()), d: BigInt::from(u_to_ref(v.denominator())) })
+            } else {
+                match c.radix {
+                    Some(n) => RBig::from_str_radix(t, n).map_err(e),
+                    None => RBig::from_str_with_radix_prefix(t).map(|v| v.0).map_err(e),
+                }
+                .map(|v| Val::Ratio { n: i_to_ref(v.numerator()), d: BigInt::from(u_to_ref(v.denominator())) })
+            }
+        }
+    });
+    match r {
+        Ok(Ok(v)) => {
+            if let Val::Ratio { d, .. } = &v {
+                if d.is_zero() {
+                    return Err("zero denominator".into());
+                }
+            }
+            Ok(v)
+        }
+        Ok(Err(e)) => Err(e),
+        Err(p) => Err(format!("panic: {}", p)),
+    }
+}
+
+/// reference value (exact) and, for floats, the documented precision
+fn ref_parse(c: &Case) -> Option<Val> {
+    match c.fam {
+        Fam::U => ref_int(&c.text, c.radix, false).map(Val::Int),
+        Fam::I => ref_int(&c.text, c.radix, true).map(Val::Int),
+        Fam::F | Fam::D => {
+            if c.radix.is_some() {
+                return None;
+            }
+            let base = if c.fam == Fam::F { 2 } else { 10 };
+            ref_float(&c.text, base).map(|(sig, exp, nd)| Val::Float { sig, exp, base, prec: nd })
+        }
+        Fam::R => {
+            let (n, d) = ref_ratio(&c.text, c.radix)?;
+            if d.is_zero() {
+                return None;
+            }
+            if c.relaxed {
+                Some(Val::Ratio { n, d })
+            } else {
+                let r = crate::fref::Rat::new(n, d);
+                Some(Val::Ratio { n: r.n, d: r.d })
+            }
+        }
+    }
+}
+
+// ---------------------------------------------------------------------------------------------
+// universes
+
+fn mags_boundary() -> Vec<BigUint> {
+    // the design's list: both sides of the u32 const path, of one and two words, multi-word
+    let one = BigUint::one();
+    vec![
+        BigUint::zero(),
+        one.clone(),
+        pow2(32) - &one,
+        pow2(32),
+        pow2(64) - &one,
+        pow2(64),
+        pow2(128) - &one,
+        pow2(128),
+        shape(3, "lcgA", 0),
+        shape(5, "sparse", 0),
+        shape(17, "lcgB", 0),
+    ]
+}
+
+fn mags(quick: bool, seed: u64) -> Vec<BigUint> {
+    let mut v = mags_boundary();
+    let one = BigUint::one();
+    v.push(BigUint::from(2u8));
+    v.push(BigUint::from(10u8));
+    v.push(BigUint::from(255u8));
+    let ks: Vec<u64> = if quick { (28..=36).chain(60..=68).chain(124..=132).chain([8, 16, 24, 40, 48, 56, 72, 96, 136, 192]).collect() } else { (0..=200).collect() };
+    for k in ks {
+        v.push(pow2(k));
+        v.push(pow2(k) - &one);
+        if !quick {
+            v.push(pow2(k) + &one);
+        }
+    }
+    if quick {
+        for (n, p) in [(1, "lcgA"), (2, "lcgA"), (2, "alt"), (3, "ones"), (3, "top1"), (4, "alt"), (5, "lcgB"), (17, "ones"), (17, "top1p1")] {
+            v.push(shape(n, p, seed));
+        }
+    } else {
+        v.extend(i3_mags());
+        for n in [1usize, 2, 3, 4, 5, 8, 17, 33] {
+            for p in PATTERNS {
+                v.push(shape(n, p, seed));
+            }
+        }
+    }
+    v.sort();
+    v.dedup();
+    v
+}
+
+fn size_of(m: &BigUint) -> &'static str {
+    match m.bits() {
+        0 => "zero",
+        1..=32 => "<=u32",
+        33..=64 => "<=u64",
+        65..=128 => "<=u128",
+        _ => ">u128",
+    }
+}
+
+fn group(d: &str, k: usize) -> String {
+    let b = d.as_bytes();
+    let mut s = String::new();
+    for (i, c) in b.iter().enumerate() {
+        if i > 0 && (b.len() - i) % k == 0 {
+            s.push('_');
+        }
+        s.push(*c as char);
+    }
+    s
+}
+
+/// spell a digit string of an arbitrary radix as ONE Rust token (literal or identifier), as the
+/// macro documentation prescribes (`_100ef base 32`)
+fn one_token(d: &str) -> String {
+    let b = d.as_bytes();
+    let all_dec = b.iter().all(|c| c.is_ascii_digit() || *c == b'_');
+    if b[0].is_ascii_digit() && all_dec {
+        d.to_string()
+    } else if b[0].is_ascii_alphabetic() || b[0] == b'_' {
+        d.to_string()
+    } else {
+        format!("_{}", d)
+    }
+}
+
+/// may the mixed digit string be written raw, as a Rust literal with a suffix (`1f`, `12abc`)?
+fn raw_suffix_ok(d: &str) -> bool {
+    let b = d.as_bytes();
+    if !b[0].is_ascii_digit() || d.starts_with("0b") || d.starts_with("0o") || d.starts_with("0x") {
+        return false;
+    }
+    match b.iter().find(|c| !(c.is_ascii_digit() || **c == b'_')) {
+        Some(c) => *c != b'e' && *c != b'E',
+        None => false,
+    }
+}
+
+const INT_BASES_Q: [u32; 5] = [2, 3, 10, 16, 36];
+const INT_BASES_T: [u32; 9] = [2, 3, 7, 8, 10, 16, 32, 35, 36];
+
+/// (form, source tokens, run-time text, radix, compile-in-quick?)
+fn int_forms(m: &BigUint, quick: bool) -> Vec<(String, String, String, Option<u32>, bool)> {
+    let mut f = vec![];
+    let dec = m.to_str_radix(10);
+    f.push(("dec".to_string(), dec.clone(), dec.clone(), None, true));
+    if dec.len() > 3 {
+        f.push(("dec,underscores".into(), group(&dec, 3), group(&dec, 3), None, false));
+    }
+    f.push(("dec,underscores".into(), format!("{}_", dec), format!("{}_", dec), None, false));
+    f.push(("dec,leading-zeros".into(), format!("00{}", dec), format!("00{}", dec), None, false));
+    for (pfx, r, name) in [("0b", 2u32, "bin"), ("0o", 8, "oct"), ("0x", 16, "hex")] {
+        let d = m.to_str_radix(r);
+        f.push((format!("prefix-{}", name), format!("{}{}", pfx, d), format!("{}{}", pfx, d), None, r == 16 || (r == 2 && m.bits() <= 128)));
+        let g = group(&d, 4);
+        f.push((format!("prefix-{},underscores", name), format!("{}{}", pfx, g), format!("{}{}", pfx, g), None, r == 16 && d.len() > 4));
+        f.push((format!("prefix-{},underscores", name), format!("{}_{}", pfx, d), format!("{}_{}", pfx, d), None, false));
+        f.push((format!("prefix-{},leading-zeros", name), format!("{}00{}", pfx, d), format!("{}00{}", pfx, d), None, false));
+        if r == 16 {
+            let u = d.to_uppercase();
+            if u != d {
+                f.push(("prefix-hex,uppercase".into(), format!("0x{}", u), format!("0x{}", u), None, false));
+            }
+        }
+    }
+    let bases: &[u32] = if quick { &INT_BASES_Q } else { &INT_BASES_T };
+    for &n in bases {
+        let d = m.to_str_radix(n);
+        let mut spell = vec![(d.clone(), "")];
+        if d.len() > 4 {
+            spell.push((group(&d, 4), ",underscores"));
+        }
+        if n > 10 {
+            let u = d.to_uppercase();
+            if u != d {
+                spell.push((u, ",uppercase"));
+            }
+        }
+        for (s, tag) in spell {
+            let tok = one_token(&s);
+            let lit = if tok.as_bytes()[0].is_ascii_digit() { "literal" } else { "ident" };
+            f.push((format!("base{},{}{}", n, lit, tag), format!("{} base {}", tok, n), tok.clone(), Some(n), tag.is_empty() && (n == 36 || n == 3)));
+            if raw_suffix_ok(&s) {
+                f.push((format!("base{},suffixed-literal{}", n, tag), format!("{} base {}", s, n), s.clone(), Some(n), tag.is_empty() && n == 36));
+            }
+        }
+    }
+    f
+}
+
+fn int_cases(ms: &[BigUint], quick: bool, out: &mut Vec<Case>) {
+    let boundary = mags_boundary();
+    for m in ms {
+        let is_b = boundary.contains(m);
+        for (form, src, text, radix, cq) in int_forms(m, quick) {
+            for (fam, sign) in [(Fam::U, ""), (Fam::I, ""), (Fam::I, "-"), (Fam::I, "+")] {
+                for stat in [false, true] {
+                    let compile = if is_b && cq && (sign != "+" || form == "dec") && !(fam == Fam::I && sign.is_empty()) {
+                        1
+                    } else if (is_b && !(fam == Fam::I && sign.is_empty())) || (cq && m.bits() % 8 <= 1 && m.bits() <= 136 && ((fam == Fam::U) || sign == "-")) {
+                        2
+                    } else {
+                        0
+                    };
+                    out.push(Case { fam, stat, src: format!("{}{}", sign, src), text: format!("{}{}", sign, text), radix, relaxed: false, doc: true, form: format!("{},{}", form, size_of(m)), compile });
+                }
+            }
+        }
+    }
+}
+
+/// one float spelling: digit strings of the integral and fractional part in `radix` digits
+struct FSpell {
+    ip: String,
+    fp: Option<String>,
+    /// (marker, exponent text) e.g. ("e", "-3")
+    exp: Option<(&'static str, String)>,
+    sign: &'static str,
+}
+
+/// source tokens and run-time text of a float spelling; None if it cannot be written as Rust tokens
+fn float_src(hex: bool, s: &FSpell, style: u8) -> Option<(String, String, &'static str)> {
+    float_src0(hex, s, style).filter(|x| lexable(&x.0))
+}
+
+fn float_src0(hex: bool, s: &FSpell, style: u8) -> Option<(String, String, &'static str)> {
+    // body without sign
+    let mut body = String::new();
+    if hex {
+        body.push_str("0x");
+    }
+    body.push_str(&s.ip);
+    if let Some(fp) = &s.fp {
+        body.push('.');
+        body.push_str(fp);
+    }
+    if let Some((m, e)) = &s.exp {
+        body.push_str(m);
+        body.push_str(e);
+    }
+    let text = format!("{}{}", s.sign, body);
+    if !hex && s.ip == "0" && s.fp.is_none() {
+        // `0b3`, `0b-3` would be (invalid) Rust binary literals
+        if let Some((m, e)) = &s.exp {
+            if *m == "b" && !(e.bytes().all(|c| c == b'0' || c == b'1')) {
+                return None;
+            }
+        }
+    }
+    if !hex || s.fp.is_none() {
+        if hex && s.ip.is_empty() {
+            return None;
+        }
+        // decimal / binary digits (and hex without a point) are written as they are; how rustc
+        // cuts them into tokens (`1.5e3` is one literal, `1.e5` three tokens) does not matter
+        // because the macro concatenates the tokens again
+        if s.ip.is_empty() && s.fp.as_deref().map_or(true, |f| f.is_empty()) {
+            return None;
+        }
+        if style != 0 {
+            return None;
+        }
+        return Some((text.clone(), text, "plain"));
+    }
+    // hexadecimal with a point: rustc refuses `0x1.8`; the documented spellings are the
+    // underscore-prefixed literal (`_0x1.8p3`) and the underscore after the point (`0x1._8p3`)
+    let fp = s.fp.as_ref().unwrap();
+    let after_point_risky = |f: &str| {
+        // digits directly followed by e/E would start a Rust exponent
+        let b = f.as_bytes();
+        if b.is_empty() || !b[0].is_ascii_digit() {
+            return false;
+        }
+        match b.iter().find(|c| !(c.is_ascii_digit() || **c == b'_')) {
+            Some(c) => *c == b'e' || *c == b'E',
+            None => false,
+        }
+    };
+    let tail = |f: &str| -> String {
+        let mut t = String::new();
+        t.push_str(f);
+        if let Some((m, e)) = &s.exp {
+            t.push_str(m);
+            t.push_str(e);
+        }
+        t
+    };
+    match style {
+        0 => {
+            // `_0xAAA.BBBpE` : the macro strips the underscore (fbig.md)
+            if s.ip.is_empty() || after_point_risky(fp) {
+                return None;
+            }
+            Some((format!("{}_0x{}.{}", s.sign, s.ip, tail(fp)), text, "hex,underscore-prefix"))
+        }
+        1 => {
+            // `0xAAA._BBBpE`
+            if s.ip.is_empty() || fp.is_empty() {
+                return None;
+            }
+            let t2 = format!("{}0x{}._{}", s.sign, s.ip, tail(fp));
+            Some((t2.clone(), t2, "hex,underscore-after-point"))
+        }
+        2 => {
+            // `0xAAA.fBB` when the fraction starts with a letter
+            if s.ip.is_empty() || fp.is_empty() || !fp.as_bytes()[0].is_ascii_alphabetic() {
+                return None;
+            }
+            Some((text.clone(), text, "hex,letter-after-point"))
+        }
+        _ => None,
+    }
+}
+
+fn float_cases(ms: &[BigUint], heavy: &[BigUint], out: &mut Vec<Case>) {
+    let boundary = mags_boundary();
+    for (fam, radixes) in [(Fam::F, &[2u32, 16][..]), (Fam::D, &[10u32][..])] {
+        for &r in radixes {
+            let hex = r == 16;
+            let markers: &[&'static str] = match (fam, hex) {
+                (Fam::D, _) => &["e", "E", "@"],
+                (_, true) => &["p", "P"],
+                _ => &["b", "B", "@"],
+            };
+            for m in ms {
+                let is_heavy = heavy.contains(m);
+                let is_b = boundary.contains(m);
+                if r == 2 && m.bits() > 320 && !is_b {
+                    continue;
+                }
+                let d = m.to_str_radix(r);
+                let n = d.len();
+                // split points: digits of the fractional part
+                let mut splits: Vec<Option<usize>> = vec![None, Some(0), Some(n / 2), Some(n)];
+                if is_heavy {
+                    splits.push(Some(1.min(n)));
+                    splits.push(Some(n.saturating_sub(1)));
+                }
+                splits.dedup();
+                let zeros: &[(&str, &str)] = if is_heavy { &[("", ""), ("", "0"), ("", "000"), ("00", ""), ("0", "00")] } else { &[("", ""), ("", "0")] };
+                let exps: Vec<Option<String>> = if is_heavy { vec![None, Some("0".into()), Some("3".into()), Some("-3".into()), Some("+3".into()), Some("-0".into()), Some("100000".into()), Some("-99999".into())] } else { vec![None, Some("-3".into())] };
+                let signs: &[&'static str] = if is_heavy { &["", "-", "+"] } else { &["", "-"] };
+                let mut seen = std::collections::BTreeSet::new();
+                for sp in &splits {
+                    for (lz, tz) in zeros {
+                        let (ip, fp) = match sp {
+                            None => (format!("{}{}{}", lz, d, tz), None),
+                            Some(k) => {
+                                let k = *k;
+                                (format!("{}{}", lz, &d[..n - k]), Some(format!("{}{}", &d[n - k..], tz)))
+                            }
+                        };
+                        for e in &exps {
+                            for (mi, mk) in markers.iter().enumerate() {
+                                if e.is_none() && mi > 0 {
+                                    continue;
+                                }
+                                if !is_heavy && mi > 0 {
+                                    continue;
+                                }
+                                for sg in signs {
+                                    let spell = FSpell { ip: ip.clone(), fp: fp.clone(), exp: e.clone().map(|x| (*mk, x)), sign: sg };
+                                    for style in 0..3u8 {
+                                        if let Some((src, text, fname)) = float_src(hex, &spell, style) {
+                                            if !seen.insert(src.clone()) {
+                                                continue;
+                                            }
+                                            // grouped-underscore variant of long digit strings is produced below
+                                            let zero_cls = if m.is_zero() { "zero" } else { size_of(m) };
+                                            let form = format!("{}{},{}{}", if hex { "" } else if r == 2 { "bin," } else { "dec," }, fname, zero_cls, if tz.is_empty() { "" } else { ",trailing-zeros" });
+                                            for stat in [false, true] {
+                                                let plain = lz.is_empty() && mi == 0;
+                                                let pick = (sp.is_none() && e.is_none() && sg.is_empty()) || (*sp == Some(n / 2) && e.as_deref() == Some("-3") && *sg != "+") || (*sp == Some(n) && e.is_none() && *sg == "-");
+                                                let compile = if is_b && plain && pick && (r != 2 || m.bits() <= 128) {
+                                                    1
+                                                } else if (is_b && plain && tz.is_empty()) || (is_heavy && m.bits() != 1 && m.bits() != 4 && plain && tz.len() <= 1 && matches!(e.as_deref(), None | Some("-3")) && *sg != "+") {
+                                                    2
+                                                } else {
+                                                    0
+                                                };
+                                                out.push(Case { fam, stat, src: src.clone(), text: text.clone(), radix: None, relaxed: false, doc: true, form: form.clone(), compile });
+                                            }
+                                        }
+                                    }
+                                }
+                            }
+                        }
+                    }
+                }
+                // underscores inside the digits
+                if n > 4 {
+                    let g = group(&d, 4);
+                    let spell = FSpell { ip: g.clone(), fp: None, exp: None, sign: "" };
+                    if let Some((src, text, _)) = float_src(hex, &spell, 0) {
+                        for stat in [false, true] {
+                            out.push(Case { fam, stat, src: src.clone(), text: text.clone(), radix: None, relaxed: false, doc: true, form: format!("{},underscores,{}", if hex { "hex" } else if r == 2 { "bin" } else { "dec" }, size_of(m)), compile: if is_b { 1 } else { 0 } });
+                        }
+                    }
+                    if fam == Fam::D {
+                        // `1._5`-style: underscore directly after the point
+                        let src = format!("{}._{}", &d[..n / 2], &d[n / 2..]);
+                        for stat in [false, true] {
+                            out.push(Case { fam, stat, src: src.clone(), text: src.clone(), radix: None, relaxed: false, doc: false, form: format!("dec,underscore-after-point,{}", size_of(m)), compile: 0 });
+                        }
+                    }
+                }
+            }
+        }
+    }
+}
+
+fn ratio_cases(ms: &[BigUint], heavy: &[BigUint], quick: bool, out: &mut Vec<Case>) {
+    let boundary = mags_boundary();
+    let three = BigUint::from(3u8);
+    let six = BigUint::from(6u8);
+    // (numerator, denominator, boundary magnitude involved, compiled in the quick tier)
+    let mut pairs: Vec<(BigUint, BigUint, bool, bool)> = vec![];
+    for m in ms {
+        let b = boundary.contains(m);
+        pairs.push((m.clone(), BigUint::one(), b, false));
+        pairs.push((m.clone(), three.clone(), b, b));
+        if !m.is_zero() {
+            pairs.push((three.clone(), m.clone(), b, b));
+            pairs.push((m * &six, m * &BigUint::from(4u8), b, b)); // common factor m and 2
+            pairs.push((m.clone(), m + BigUint::one(), b, false));
+        }
+    }
+    for a in heavy {
+        for b in heavy {
+            if !b.is_zero() {
+                pairs.push((a.clone(), b.clone(), true, false));
+            }
+        }
+    }
+    pairs.sort();
+    pairs.dedup();
+    let bases: &[u32] = if quick { &[3, 16, 36] } else { &[2, 3, 10, 16, 32, 36] };
+    pairs.dedup_by(|x, y| x.0 == y.0 && x.1 == y.1);
+    for (n, d, b, q1) in &pairs {
+        let is_heavy = heavy.contains(n) && heavy.contains(d);
+        let mut spell: Vec<(String, String, String, Option<u32>, bool)> = vec![]; // form, src, text, radix, compile-quick
+        let (nd, dd) = (n.to_str_radix(10), d.to_str_radix(10));
+        spell.push(("dec".into(), format!("{}/{}", nd, dd), format!("{}/{}", nd, dd), None, true));
+        if d.is_one() {
+            spell.push(("dec,no-denominator".into(), nd.clone(), nd.clone(), None, true));
+        }
+        let (nh, dh) = (n.to_str_radix(16), d.to_str_radix(16));
+        spell.push(("prefix-hex,both".into(), format!("0x{}/0x{}", nh, dh), format!("0x{}/0x{}", nh, dh), None, n.bits() > 32 || d.bits() > 32));
+        spell.push(("prefix-hex,numerator-only".into(), format!("0x{}/{}", nh, one_token(&dh)), format!("0x{}/{}", nh, one_token(&dh)), None, is_heavy));
+        if is_heavy || *b {
+            let (nb, db) = (n.to_str_radix(2), d.to_str_radix(2));
+            if nb.len() <= 200 && db.len() <= 200 {
+                spell.push(("prefix-bin,both".into(), format!("0b{}/0b{}", nb, db), format!("0b{}/0b{}", nb, db), None, false));
+            }
+            let (no, dob) = (n.to_str_radix(8), d.to_str_radix(8));
+            spell.push(("prefix-oct,numerator-only".into(), format!("0o{}/{}", no, dob), format!("0o{}/{}", no, dob), None, false));
+            if nd.len() > 3 {
+                spell.push(("dec,underscores".into(), format!("{}/{}", group(&nd, 3), group(&dd, 3)), format!("{}/{}", group(&nd, 3), group(&dd, 3)), None, false));
+            }
+        }
+        for &r in bases {
+            if !(is_heavy || *b || r == 36) {
+                continue;
+            }
+            let (a, c) = (one_token(&n.to_str_radix(r)), one_token(&d.to_str_radix(r)));
+            spell.push((format!("base{}", r), format!("{}/{} base {}", a, c, r), format!("{}/{}", a, c), Some(r), r == 36 && d == &three));
+        }
+        let signs: Vec<(&str, &str)> = if is_heavy { vec![("", ""), ("-", ""), ("+", ""), ("", "-"), ("-", "-"), ("", "+"), ("-", "+")] } else { vec![("", ""), ("-", "")] };
+        for (form, src, text, radix, cq) in spell {
+            for (sn, sd) in &signs {
+                let put = |s: &str| -> Option<String> {
+                    match s.find('/') {
+                        Some(p) => Some(format!("{}{}/{}{}", sn, &s[..p], sd, &s[p + 1..])),
+                        None => {
+                            if sd.is_empty() {
+                                Some(format!("{}{}", sn, s))
+                            } else {
+                                None
+                            }
+                        }
+                    }
+                };
+                let (src2, text2) = match (put(&src), put(&text)) {
+                    (Some(a), Some(b)) => (a, b),
+                    _ => continue,
+                };
+                for relaxed in [false, true] {
+                    for stat in [false, true] {
+                        let cls = if n.bits() <= 32 && d.bits() <= 32 { "both<=u32" } else if n.bits() <= 32 { "den>u32" } else if d.bits() <= 32 { "num>u32" } else { "both>u32" };
+                        let compile = if *q1 && cq && sd.is_empty() && (sn.is_empty() || (*sn == "-" && form == "dec")) { 1 } else if (*b && sd.is_empty() && (cq || form.starts_with("prefix-hex"))) || (is_heavy && (form == "dec" || form == "prefix-hex,both" || form == "base36") && matches!((*sn, *sd), ("", "") | ("-", "") | ("", "-"))) { 2 } else { 0 };
+                        out.push(Case { fam: Fam::R, stat, src: format!("{}{}", if relaxed { "~" } else { "" }, src2), text: text2.clone(), radix, relaxed, doc: true, form: format!("{},{}{}", form, cls, if relaxed { ",relaxed" } else { "" }), compile });
+                    }
+                }
+            }
+        }
+    }
+}
+
+// ---------------------------------------------------------------------------------------------
+// token-sequence universe: every sequence of <= L tokens over a small alphabet per macro family;
+// the canonical reading of a sequence is: optional leading `~` (rbig), optional trailing
+// `base <decimal literal>`, the rest concatenated = the literal text
+
+fn alphabet(fam: Fam) -> &'static [&'static str] {
+    match fam {
+        Fam::U | Fam::I => &["-", "+", "1", "0x1f", "z", "_1", "base", "16", "36", "1.5", "/", "~", "(1)", "\"1\"", "1e3", "_"],
+        Fam::F => &["-", "+", "1", "0x1", "_0x1", ".", "1.1", "f", "_1", "p3", "b3", "@", "3", "1e3", "base", "~"],
+        Fam::D => &["-", "+", "1", "15", ".", "1.5", "e3", "_5", "1e3", "@", "3", "E", "0x1", "base", "/", "(1)"],
+        Fam::R => &["-", "+", "~", "/", "1", "2", "0x1f", "dd", "base", "16", "0", "_1", "1.5", "(1)", "4", "6"],
+    }
+}
+
+fn is_dec_literal(t: &str) -> bool {
+    !t.is_empty() && t.bytes().all(|c| c.is_ascii_digit())
+}
+
+fn token_case(fam: Fam, seq: &[&str]) -> Case {
+    let src = seq.join(" ");
+    let mut body: &[&str] = seq;
+    let mut relaxed = false;
+    if fam == Fam::R && body.first() == Some(&"~") {
+        relaxed = true;
+        body = &body[1..];
+    }
+    let mut radix = None;
+    if matches!(fam, Fam::U | Fam::I | Fam::R) && body.len() >= 3 && body[body.len() - 2] == "base" && is_dec_literal(body[body.len() - 1]) {
+        radix = body[body.len() - 1].parse::<u32>().ok();
+        if radix.is_some() {
+            body = &body[..body.len() - 2];
+        }
+    }
+    let mut text: String = body.concat();
+    if fam == Fam::F {
+        // fbig.md: one underscore prefix (after the sign) is dropped
+        let (s, rest) = match text.strip_prefix('-') {
+            Some(r) => ("-", r),
+            None => match text.strip_prefix('+') {
+                Some(r) => ("+", r),
+                None => ("", text.as_str()),
+            },
+        };
+        if let Some(r) = rest.strip_prefix('_') {
+            text = format!("{}{}", s, r);
+        }
+    }
+    Case { fam, stat: false, src, text, radix, relaxed, doc: false, form: "token-sequence".into(), compile: 0 }
+}
+
+fn token_cases(fam: Fam, maxlen: usize, out: &mut Vec<Case>) {
+    let a = alphabet(fam);
+    out.push(token_case(fam, &[]));
+    for len in 1..=maxlen {
+        let total = a.len().pow(len as u32);
+        for idx in 0..total {
+            let mut k = idx;
+            let mut seq = vec![""; len];
+            for j in (0..len).rev() {
+                seq[j] = a[k % a.len()];
+                k /= a.len();
+            }
+            out.push(token_case(fam, &seq));
+        }
+    }
+}
+
+/// hand-written literals outside (or at the edge of) the grammar — the design's list
+fn invalid_cases(out: &mut Vec<Case>) {
+    let ints: &[&str] = &[
+        "12 base 2", "9 base 8", "g base 16", "_1g base 16", "zz base 35", "1 base 1", "1 base 37", "1 base 0", "1 base", "1 base x", "1 base -2", "1 base 10 10", "1 base 4294967296", "1 base 10u8", "1 base 0x10", "1 base 1_0", "1 base 10.0",
+        "", "--5", "- -5", "+-5", "-+5", "++5", "-5", "+5", "1.5", "1e3", "1.", "12u8", "\"12\"", "'1'", "(12)", "[1]", "{1}", "1 2", "5-", "5 +", "_", "__ base 10", "1/2", "~1", "1 base 16 base 16", "1 base base 16", "1,2", "1;", "base 10", "true", "-", "+",
+        "0xg", "0b_", "1_000 000", "- 0x", "0x1f base 36", "1e3 base 16", "0o17 base 8", "12abc", "ab", "0xffu8", "-0", "- 0", "+0",
+    ];
+    for s in ints {
+        if !lexable(s) {
+            continue; // rustc itself refuses the token; it never reaches the macro
+        }
+        for fam in [Fam::U, Fam::I] {
+            for stat in [false, true] {
+                let seq: Vec<&str> = split_src(s);
+                let mut c = token_case(fam, &seq);
+                c.src = s.to_string();
+                c.stat = stat;
+                c.form = "hand-written".into();
+                c.compile = 1;
+                out.push(c);
+            }
+        }
+    }
+    let floats: &[&str] = &[
+        "", "--1.5", "+-1", "-+1", "++1", "1.5.2", "1.5 base 10", "1 base 2", "0x1p3", "0x1._8p3", "1.5e3", "12", "1p3", ".", "1e5e5", "1@", "@1", "1.5f32", "\"1.5\"", "(1.5)", "1 . 5", "1,5", "1e1_0", "0x1p1_0", "inf", "nan", "1/2", "~1.5", "__1", "_1", "-_1", "_-1", "1 1", "1e", "1.1b", "1b3", "1B-3", "1.1@3", "0b101", "0x", "1e3", "1E+3", "1e-3", "1.e5", ".5", "5.", "-.5", "1_0.0_1", "1._5", "0x1f", "0X1F", "0x1.8@3", "1e99999999999999999999", "1e9223372036854775807", "1b9223372036854775807", "0x1p9223372036854775807", "1.5e-9223372036854775808",
+    ];
+    for s in floats {
+        if !lexable(s) || *s == "0x1.8@3" {
+            continue; // refused by rustc's lexer (`0x1.8` = "hexadecimal float literal is not supported")
+        }
+        for fam in [Fam::F, Fam::D] {
+            for stat in [false, true] {
+                let seq: Vec<&str> = split_src(s);
+                let mut c = token_case(fam, &seq);
+                c.src = s.to_string();
+                c.stat = stat;
+                c.form = "hand-written".into();
+                c.compile = 1;
+                out.push(c);
+            }
+        }
+    }
+    let ratios: &[&str] = &[
+        "", "1/0", "1/-0", "0/0", "~1/0", "1 / / 2", "1/2/3", "/2", "1/", "~", "1~/2", "1/~2", "1 2", "22 7", "0x10/0b11", "10/0x10", "0x10/10", "1.5/2", "1/2.5", "1/2 base 1", "1/2 base 37", "g/1 base 16", "1/g base 16", "1 base 10/2", "--1/2", "1/--2", "1/+-2", "\"1\"/2", "(1/2)", "1/2 base", "- ~1/2", "-~1/2", "~ ~1/2", "~~1/2", "1 - 2", "1/2 base 10 base 10", "+1/+2", "-1/-2", "~-0/5", "0/5", "~0/4", "~6/4", "6/4", "1/2 3", "1 2/3", "-", "/", "1 / 2", "1/2u8", "_/1", "1/_",
+    ];
+    for s in ratios {
+        for stat in [false, true] {
+            let seq: Vec<&str> = split_src(s);
+            let mut c = token_case(Fam::R, &seq);
+            c.src = s.to_string();
+            c.stat = stat;
+            c.form = "hand-written".into();
+            c.compile = 1;
+            out.push(c);
+        }
+    }
+}
+
+/// would rustc lex this macro argument?  (number tokens only: radix prefixes need valid digits,
+/// a decimal exponent needs a digit)
+fn lexable(src: &str) -> bool {
+    for t in split_src(src) {
+        let b = t.as_bytes();
+        if !b[0].is_ascii_digit() {
+            continue;
+        }
+        for (pfx, radix) in [("0b", 2u32), ("0o", 8), ("0x", 16)] {
+            if let Some(rest) = t.strip_prefix(pfx) {
+                let run: Vec<u8> = rest.bytes().take_while(|c| if radix == 16 { c.is_ascii_hexdigit() || *c == b'_' } else { c.is_ascii_digit() || *c == b'_' }).collect();
+                if !run.iter().any(|c| *c != b'_') {
+                    return false;
+                }
+                if radix != 16 && run.iter().any(|c| c.is_ascii_digit() && (*c - b'0') as u32 >= radix) {
+                    return false;
+                }
+            }
+        }
+        if !(t.starts_with("0b") || t.starts_with("0o") || t.starts_with("0x")) {
+            // decimal: digits [. digits] [e|E [+-] digits]
+            let mut i = 0;
+            while i < b.len() && (b[i].is_ascii_digit() || b[i] == b'_' || b[i] == b'.') {
+                i += 1;
+            }
+            if i < b.len() && (b[i] == b'e' || b[i] == b'E') {
+                let mut j = i + 1;
+                if j < b.len() && (b[j] == b'+' || b[j] == b'-') {
+                    j += 1;
+                }
+                while j < b.len() && b[j] == b'_' {
+                    j += 1;
+                }
+                if !(j < b.len() && b[j].is_ascii_digit()) {
+                    return false;
+                }
+            }
+        }
+    }
+    true
+}
+
+/// split hand-written source into Rust tokens (only the token kinds used in the lists above)
+fn split_src(s: &str) -> Vec<&str> {
+    let b = s.as_bytes();
+    let mut out = vec![];
+    let mut i = 0;
+    while i < b.len() {
+        let c = b[i];
+        if c == b' ' {
+            i += 1;
+        } else if c == b'"' || c == b'\'' {
+            let j = (i + 1..b.len()).find(|&j| b[j] == c).unwrap();
+            out.push(&s[i..=j]);
+            i = j + 1;
+        } else if c == b'(' || c == b'[' || c == b'{' {
+            let close = match c {
+                b'(' => b')',
+                b'[' => b']',
+                _ => b'}',
+            };
+            let j = (i + 1..b.len()).find(|&j| b[j] == close).unwrap();
+            out.push(&s[i..=j]);
+            i = j + 1;
+        } else if c.is_ascii_digit() {
+            // number literal: digits/letters/underscores, one `.` followed by a digit or by a
+            // non-identifier character, exponent sign after e/E of a decimal literal
+            let hexlike = s[i..].starts_with("0x") || s[i..].starts_with("0b") || s[i..].starts_with("0o");
+            let mut j = i;
+            let mut seen_dot = false;
+            while j < b.len() {
+                let d = b[j];
+                if d.is_ascii_alphanumeric() || d == b'_' {
+                    j += 1;
+                } else if d == b'.' && !seen_dot && !hexlike && b[i..j].iter().all(|x| x.is_ascii_digit() || *x == b'_') {
+                    let nx = b.get(j + 1).copied();
+                    let id_start = nx.map_or(false, |x| x.is_ascii_alphabetic() || x == b'_');
+                    if nx == Some(b'.') || id_start {
+                        break;
+                    }
+                    seen_dot = true;
+                    j += 1;
+                } else if (d == b'+' || d == b'-') && !hexlike && j > i && (b[j - 1] == b'e' || b[j - 1] == b'E') && b[i..j - 1].iter().all(|x| x.is_ascii_digit() || *x == b'_' || *x == b'.') && b.get(j + 1).map_or(false, |x| x.is_ascii_digit()) {
+                    j += 1;
+                } else {
+                    break;
+                }
+            }
+            out.push(&s[i..j]);
+            i = j;
+        } else if c.is_ascii_alphabetic() || c == b'_' {
+            let j = (i..b.len()).find(|&j| !(b[j].is_ascii_alphanumeric() || b[j] == b'_')).unwrap_or(b.len());
+            out.push(&s[i..j]);
+            i = j;
+        } else {
+            out.push(&s[i..i + 1]);
+            i += 1;
+        }
+    }
+    out
+}
+
+// ---------------------------------------------------------------------------------------------
+// observations and the judge
+
+#[derive(Clone, Debug)]
+enum Obs {
+    /// the macro produced code; decoded
+    Accepted(Dec),
+    /// the macro panicked (= compile error) with this message
+    Rejected(String),
+    /// the macro produced code the reader cannot interpret / that is inconsistent in itself
+    Undecodable(String),
+    /// the token text could not be lexed (generator problem)
+    Lex(String),
+    /// not expanded (replay of another case)
+    Skipped,
+}
+
+fn fam_mac(f: Fam) -> &'static str {
+    match f {
+        Fam::U => "ubig",
+        Fam::I => "ibig",
+        Fam::F => "fbig",
+        Fam::D => "dbig",
+        Fam::R => "rbig",
+    }
+}
+
+/// which rule of the grammar an accepted-but-ungrammatical token sequence breaks (signature class)
+fn anomaly(c: &Case) -> &'static str {
+    let t = split_src(&c.src);
+    let is_val = |x: &str| x.as_bytes()[0].is_ascii_alphanumeric() || x.as_bytes()[0] == b'_';
+    if t.iter().filter(|x| **x == "base").count() > 1 {
+        return "repeated-base-keyword";
+    }
+    if c.fam == Fam::R {
+        let body: Vec<&str> = match t.iter().rposition(|x| *x == "base") {
+            Some(p) if p > 0 => t[..p].to_vec(),
+            _ => t.clone(),
+        };
+        let vals = body.iter().filter(|x| is_val(x)).count();
+        let slash = body.iter().filter(|x| **x == "/").count();
+        if vals >= 2 && slash == 0 {
+            return "missing-slash";
+        }
+        if let Some(p) = body.iter().position(|x| *x == "/") {
+            if !body[..p].iter().any(|x| is_val(x)) || !body[p + 1..].iter().any(|x| is_val(x)) {
+                return "dangling-slash";
+            }
+        }
+        if body.iter().filter(|x| **x == "~").count() > 1 {
+            return "repeated-tilde";
+        }
+        if let Some(p) = body.iter().position(|x| *x == "~") {
+            if p != 0 {
+                return "tilde-not-first";
+            }
+        }
+        for (i, x) in body.iter().enumerate() {
+            if (*x == "-" || *x == "+") && body.get(i + 1).map_or(true, |y| *y == "/") {
+                return "sign-not-before-number";
+            }
+        }
+        // signs directly in front of one component
+        let mut run = 0;
+        for x in &body {
+            if *x == "-" || *x == "+" {
+                run += 1;
+                if run > 1 {
+                    return "repeated-sign";
+                }
+            } else {
+                run = 0;
+            }
+        }
+        return "other";
+    }
+    let first_val = t.iter().position(|x| is_val(x)).unwrap_or(t.len());
+    if t[..first_val].iter().filter(|x| **x == "-" || **x == "+").count() > 1 {
+        return "repeated-sign";
+    }
+    "other"
+}
+
+fn size_class_of(c: &Case) -> String {
+    c.form.rsplit(',').find(|s| s.starts_with('<') || s.starts_with('>') || *s == "zero" || s.starts_with("both") || s.starts_with("num") || s.starts_with("den")).unwrap_or("any").to_string()
+}
+
+/// Judge one observation.  `layer` = "expansion" (pre-pass) or "compiled" (real rustc expansion).
+fn judge(rec: &mut Rec, c: &Case, obs: &Obs, layer: &str) -> bool {
+    rec.step();
+    let n0 = rec.findings.len() + rec.classes.iter().filter(|(k, _)| k.starts_with("finding:")).map(|(_, v)| *v as usize).sum::<usize>();
+    judge_inner(rec, c, obs, layer);
+    n0 == rec.findings.len() + rec.classes.iter().filter(|(k, _)| k.starts_with("finding:")).map(|(_, v)| *v as usize).sum::<usize>()
+}
+
+fn judge_inner(rec: &mut Rec, c: &Case, obs: &Obs, layer: &str) {
+    let mac = c.mac();
+    let fmac = fam_mac(c.fam);
+    let case = || format!("{} [{}; run-time text {:?}{}]", c.show(), layer, c.text, c.radix.map(|r| format!(" radix {}", r)).unwrap_or_default());
+    match obs {
+        Obs::Skipped => {}
+        Obs::Lex(e) => rec.fail(format!("{}|harness|unlexable-case|{}", P, fmac), case(), format!("token text does not lex: {}", e), "a token stream"),
+        Obs::Undecodable(e) => {
+            let (kind, class) = if e.contains("denote different numbers") {
+                ("inconsistent-expansion", "word-arrays-differ".to_string())
+            } else if e.contains("normalised") {
+                ("inconsistent-expansion", "not-normalised".to_string())
+            } else if e.contains("beyond LEN") {
+                ("inconsistent-expansion", "nonzero-beyond-len".to_string())
+            } else if e.contains("declared") || e.contains("LEN") {
+                ("inconsistent-expansion", "length-mismatch".to_string())
+            } else {
+("undecodable-expansion", "code-shape".to_string())
+            };
+            rec.fail(format!("{}|{}!|{}|{}", P, mac, kind, class), case(), e.clone(), "one of the three documented code shapes (const u32 / from_le_bytes / static words) denoting one number");
+        }
+        Obs::Rejected(msg) => {
+            rec.hit("rejected");
+            let rt = rt_parse(c);
+            if c.doc {
+                rec.fail(format!("{}|{}!|rejected-valid-literal|{}", P, fmac, size_class_of(c)), case(), format!("compile error: {}", msg), format!("accepted (documented spelling; run-time parser gives {:?})", rt.map(|v| v.show())));
+            } else if rt.is_ok() {
+                rec.hit("unspecified:macro-stricter-than-run-time-parser");
+            } else {
+                rec.hit("rejected:as-the-run-time-parser");
+            }
+        }
+        Obs::Accepted(d) => {
+            rec.hit("accepted");
+            rec.hit(&format!("path:{}", d.path.name()));
+            let rt = rt_parse(c);
+            let rf = ref_parse(c);
+            let is_float = matches!(c.fam, Fam::F | Fam::D);
+            let zero = matches!(&d.val, Val::Float { sig, .. } if sig.is_zero());
+            let observed = || format!("{} via {}{}", d.val.show(), d.path.name(), if d.relaxed { " (Relaxed)" } else { "" });
+            let rtv = match rt {
+                Err(e) => {
+                    if rf.is_some() {
+                        rec.hit("unspecified:run-time-parser-rejects-documented-spelling");
+                        None
+                    } else {
+                        rec.fail(format!("{}|{}!|accepted-outside-grammar|{}", P, fmac, anomaly(c)), case(), format!("accepted, builds {}", observed()), format!("compile error (run-time parser: {})", e));
+                        return;
+                    }
+                }
+                Ok(v) => Some(v),
+            };
+            if c.fam == Fam::R && d.relaxed != c.relaxed {
+                rec.fail(format!("{}|{}!|wrong-type|relaxed-marker", P, mac), case(), observed(), if c.relaxed { "Relaxed" } else { "RBig" });
+            }
+            let vclass = if c.doc { size_class_of(c) } else { anomaly(c).to_string() };
+            let rf_some = rf.is_some();
+            let mut want: Vec<(&str, Val)> = vec![];
+            if let Some(v) = rtv {
+                want.push(("run-time parser", v));
+            }
+            match rf {
+                Some(v) => want.push(("reference parser", v)),
+                None => {
+                    if std::env::var("DV_C20_DEBUG").is_ok() {
+                        eprintln!("DEBUG undocumented-but-accepted: {} text {:?}", c.show(), c.text);
+                    }
+                    rec.hit("unspecified:spelling-outside-documented-grammar(run-time-parser-only)")
+                }
+            }
+            for (who, w) in &want {
+                if !same_value(&d.val, w) {
+                    if !c.doc && anomaly(c) != "other" {
+                        rec.fail(format!("{}|{}!|accepted-outside-grammar|{}", P, fmac, anomaly(c)), case(), format!("accepted, builds {}", observed()), format!("compile error, or {} (what the {} makes of the same text)", w.show(), who));
+                    } else {
+                        rec.fail(format!("{}|{}!|wrong-value|{},{}", P, mac, d.path.name(), vclass), case(), observed(), format!("{} ({})", w.show(), who));
+                    }
+                    return;
+                }
+                if is_float {
+                    let wp = match w {
+                        Val::Float { prec, .. } => *prec,
+                        _ => 0,
+                    };
+                    match (d.path, d.prec) {
+                        (Path::Static, None) => rec.hit("precision:static-words-unlimited(documented)"),
+                        (Path::Static, Some(0)) => rec.hit("precision:static-words-unlimited(documented)"),
+                        (Path::StaticConst, Some(0)) => rec.hit("precision:static-const-unlimited(documented)"),
+                        (Path::Const | Path::StaticConst, None) => rec.hit("precision:left-to-the-constructor(judged-in-the-compiled-layer)"),
+                        (_, Some(p)) if p == wp => rec.hit(if zero { "precision:equal,zero-significand" } else { "precision:equal" }),
+                        (_, p) if !c.doc && anomaly(c) != "other" => {
+                            rec.fail(format!("{}|{}!|accepted-outside-grammar|{}", P, fmac, anomaly(c)), case(), format!("accepted, builds {} with precision {:?}", observed(), p), format!("compile error, or precision {} (what the {} makes of the same text)", wp, who));
+                            return;
+                        }
+                        (_, p) => {
+                            rec.fail(format!("{}|{}!|wrong-precision|{},{},{}", P, mac, d.path.name(), if zero { "zero-significand" } else { "non-zero" }, if rf_some { "documented-spelling" } else { "undocumented-spelling" }), case(), format!("precision {:?} ({})", p, observed()), format!("precision {} ({})", wp, who));
+                            return;
+                        }
+                    }
+                }
+                if let (Val::Ratio { n, d: dd }, Val::Ratio { n: wn, d: wd }) = (&d.val, w) {
+                    if n != wn || dd != wd {
+                        if c.relaxed {
+                            rec.hit("relaxed:equal-value-different-representation");
+                        } else if d.path == Path::Static || layer == "compiled" {
+                            // RBig must be canonical; the static path transmutes without reducing
+                            rec.fail(format!("{}|{}!|not-canonical|{}", P, mac, d.path.name()), case(), observed(), format!("{} ({})", w.show(), who));
+                            return;
+                        }
+                    }
+                }
+            }
+            if c.doc {
+                rec.hit(&format!("doc-form:{}", c.form.split(',').next().unwrap_or("")));
+            }
+        }
+    }
+}
+
+// ---------------------------------------------------------------------------------------------
+// pre-pass driver
+
+fn expand_all(gen: &Gen, cases: &[Case], threads: usize, only: Option<u64>) -> Result<Vec<Obs>, String> {
+    let bin = gen.bin("c20_pre");
+    let n = cases.len();
+    let mut obs: Vec<Obs> = vec![Obs::Skipped; n];
+    let idx: Vec<usize> = match only {
+        Some(i) => {
+            if (i as usize) < n {
+                vec![i as usize]
+            } else {
+                vec![]
+            }
+        }
+        None => (0..n).collect(),
+    };
+    if idx.is_empty() {
+        return Ok(obs);
+    }
+    let chunk = (idx.len() / (threads.max(1) * 4)).clamp(1, 4000).max(1);
+    let chunks: Vec<&[usize]> = idx.chunks(chunk).collect();
+    let next = std::sync::atomic::AtomicUsize::new(0);
+    let results: std::sync::Mutex<Vec<(usize, Obs)>> = std::sync::Mutex::new(Vec::with_capacity(idx.len()));
+    let err: std::sync::Mutex<Option<String>> = std::sync::Mutex::new(None);
+    std::thread::scope(|s| {
+        for _ in 0..threads.max(1).min(chunks.len()) {
+            s.spawn(|| loop {
+                let k = next.fetch_add(1, std::sync::atomic::Ordering::Relaxed);
+                if k >= chunks.len() {
+                    break;
+                }
+                let ch = chunks[k];
+                let mut input = String::new();
+                for &i in ch {
+                    input.push_str(&cases[i].mac());
+                    input.push('\t');
+                    input.push_str(&cases[i].src);
+                    input.push('\n');
+                }
+                match run_with_input(&bin, &[], input.as_bytes()) {
+                    Err(e) => {
+                        *err.lock().unwrap() = Some(e);
+                        break;
+                    }
+                    Ok((out, st)) => {
+                        let lines: Vec<&str> = out.lines().collect();
+                        if lines.len() != ch.len() || st != "exit 0" {
+                            *err.lock().unwrap() = Some(format!("expander returned {} lines for {} cases ({}); first case of the chunk: {}", lines.len(), ch.len(), st, cases[ch[0]].show()));
+                            break;
+                        }
+                        let mut local = Vec::with_capacity(ch.len());
+                        for (l, &i) in lines.iter().zip(ch) {
+                            let (tag, rest) = l.split_once('\t').unwrap_or((l, ""));
+                            let o = match tag {
+                                "OK" => match decode(&cases[i].mac(), rest) {
+                                    Ok(d) => Obs::Accepted(d),
+                                    Err(e) => Obs::Undecodable(format!("{} — in `{}`", e, crate::core::trunc(rest, 300))),
+                                },
+                                "PANIC" => Obs::Rejected(rest.to_string()),
+                                _ => Obs::Lex(rest.to_string()),
+                            };
+                            local.push((i, o));
+                        }
+                        results.lock().unwrap().extend(local);
+                    }
+                }
+            });
+        }
+    });
+    if let Some(e) = err.into_inner().unwrap() {
+        return Err(e);
+    }
+    for (i, o) in results.into_inner().unwrap() {
+        obs[i] = o;
+    }
+    Ok(obs)
+}
+
+fn replay_target(ctx: &Ctx) -> Option<(String, u64)> {
+    match &ctx.mode {
+        Mode::Replay { sweep, index, .. } => Some((sweep.clone(), *index)),
+        _ => None,
+    }
+}
+
+/// run one pre-pass sweep: expand every case, judge every case
+fn pre_sweep(ctx: &mut Ctx, gen: &Gen, name: &str, cases: &[Case], required: &[&str]) -> Vec<Obs> {
+    let only = match replay_target(ctx) {
+        Some((s, i)) => {
+            if s == name {
+                Some(i)
+            } else {
+                Some(u64::MAX)
+            }
+        }
+        None => None,
+    };
+    let t0 = std::time::Instant::now();
+    let obs = match expand_all(gen, cases, ctx.threads, only) {
+        Ok(o) => o,
+        Err(e) => {
+            ctx.machinery(format!("pre-pass {}: {}", name, e));
+            return vec![Obs::Skipped; cases.len()];
+        }
+    };
+    let expand_s = t0.elapsed().as_secs_f64();
+    ctx.sweep(name, cases.len() as u64, |i, rec| {
+        let c = &cases[i as usize];
+        let o = &obs[i as usize];
+        judge(rec, c, o, "expansion");
+        if c.doc || matches!(o, Obs::Accepted(_)) {
+            rec.nontrivial();
+        }
+        rec.sample(|| format!("{} -> {}", c.show(), match o {
+            Obs::Accepted(d) => format!("{} via {}", d.val.show(), d.path.name()),
+            Obs::Rejected(m) => format!("compile error ({})", crate::core::trunc(m, 60)),
+            o => format!("{:?}", o),
+        }));
+    });
+    if let Some(s) = ctx.sweeps.iter_mut().find(|s| s.name == name) {
+        s.extra.insert("expander_wall_s".into(), serde_json::json!((expand_s * 100.0).round() / 100.0));
+    }
+    ctx.require_classes(name, required);
+    obs
+}
+
+// ---------------------------------------------------------------------------------------------
+// compiled crates
+
+fn parse_hex_signed(s: &str) -> Option<BigInt> {
+    let (neg, h) = if let Some(r) = s.strip_prefix('-') { (true, r) } else { (false, s.strip_prefix('+')?) };
+    let m = BigUint::parse_bytes(h.as_bytes(), 16)?;
+    let v = BigInt::from(m);
+    Some(if neg { -v } else { v })
+}
+
+fn parse_dump(fam: Fam, s: &str) -> Option<Val> {
+    match fam {
+        Fam::U | Fam::I => parse_hex_signed(s).map(Val::Int),
+        Fam::F | Fam::D => {
+            let mut it = s.split('|');
+            let sig = parse_hex_signed(it.next()?)?;
+            let exp: i64 = it.next()?.parse().ok()?;
+            let prec: u64 = it.next()?.parse().ok()?;
+            Some(Val::Float { sig, exp, base: if fam == Fam::F { 2 } else { 10 }, prec })
+        }
+        Fam::R => {
+            let (n, d) = s.split_once('/')?;
+            Some(Val::Ratio { n: parse_hex_signed(n)?, d: parse_hex_signed(d)? })
+        }
+    }
+}
+
+fn rust_str(s: &str) -> String {
+    format!("\"{}\"", s.replace('\\', "\\\\").replace('"', "\\\""))
+}
+
+fn fits_u32(v: &BigInt) -> bool {
+    v.magnitude().bits() <= 32
+}
+
+/// may the documentation's "can be assigned to a constant" be applied to this literal?
+fn constable(c: &Case, d: &Dec) -> bool {
+    if c.stat {
+        return false;
+    }
+    match rt_parse(c) {
+        Ok(Val::Int(v)) => fits_u32(&v),
+        Ok(Val::Float { sig, exp, base, .. }) => fits_u32(&norm_float(&sig, exp, base).0),
+        Ok(Val::Ratio { n, d }) => fits_u32(&n) && fits_u32(&d),
+        Err(_) => d.path == Path::Const,
+    }
+}
+
+fn row_source(i: usize, c: &Case, konst: bool, relaxed: bool) -> String {
+    let mac = c.mac();
+    let (ty, dump) = match (c.fam, relaxed) {
+        (Fam::U, _) => ("UBig", "du"),
+        (Fam::I, _) => ("IBig", "di"),
+        (Fam::F, _) => ("F2", "df"),
+        (Fam::D, _) => ("DBig", "df"),
+        (Fam::R, false) => ("RBig", "dr"),
+        (Fam::R, true) => ("Relaxed", "dx"),
+    };
+    let inv = format!("{}!({})", mac, c.src);
+    let (bind, arg) = if c.stat {
+        (format!("let m: &'static {} = {};", ty, inv), "m")
+    } else if konst {
+        (format!("const C: {} = {}; let m = C;", ty, inv), "&m")
+    } else {
+        (format!("let m: {} = {};", ty, inv), "&m")
+    };
+    let t = rust_str(&c.text);
+    let rt = match (c.fam, c.radix) {
+        (Fam::U | Fam::I, Some(n)) => format!("rt({}::from_str_radix({}, {}), |v| {}(v))", ty, t, n, dump),
+        (Fam::U | Fam::I, None) => format!("rt({}::from_str_with_radix_prefix({}), |v| {}(&v.0))", ty, t, dump),
+        (Fam::F | Fam::D, _) => format!("rt({}::from_str({}), |v| {}(v))", ty, t, dump),
+        (Fam::R, Some(n)) => format!("rt({}::from_str_radix({}, {}), |v| {}(v))", ty, t, n, dump),
+        (Fam::R, None) => format!("rt({}::from_str_with_radix_prefix({}), |v| {}(&v.0))", ty, t, dump),
+    };
+    format!("fn r{}() -> (String, String) {{ {} ({}({}), {}) }}", i, bind, dump, arg, rt)
+}
+
+fn facade_source(i: usize, c: &Case, konst: bool, relaxed: bool) -> String {
+    let (ty, dump) = match (c.fam, relaxed) {
+        (Fam::U, _) => ("UBig", "du"),
+        (Fam::I, _) => ("IBig", "di"),
+        (Fam::F, _) => ("F2", "df"),
+        (Fam::D, _) => ("DBig", "df"),
+        (Fam::R, false) => ("RBig", "dr"),
+        (Fam::R, true) => ("Relaxed", "dx"),
+    };
+    let inv = format!("dashu::{}!({})", c.mac(), c.src);
+    let (bind, arg) = if c.stat {
+        (format!("let m: &'static {} = {};", ty, inv), "m")
+    } else if konst {
+        (format!("const C: {} = {}; let m = C;", ty, inv), "&m")
+    } else {
+        (format!("let m: {} = {};", ty, inv), "&m")
+    };
+    format!("fn q{}() -> String {{ {} {}({}) }}", i, bind, dump, arg)
+}
+
+struct OkRow {
+    /// index into the compiled-case list
+    case: usize,
+    konst: bool,
+    /// rustc diagnostics attributed to the row (the row was then removed and the crate rebuilt)
+    compile_error: Option<String>,
+    /// (macro value, run-time parse as printed by the generated program)
+    output: Option<(String, String)>,
+    /// the generated program died / panicked in this row
+    died: Option<String>,
+    /// also invoke the facade macro `dashu::M!` (→ `M_embedded!`, `::dashu::…` paths)
+    facade: bool,
+    facade_error: Option<String>,
+    facade_out: Option<String>,
+}
+
+const FOFF: usize = 1 << 40;
+
+fn ok_program(rows: &[OkRow], cases: &[(Case, Obs)]) -> (String, BTreeMap<u64, usize>) {
+    let mut src = String::from(ROWS_PRELUDE);
+    let mut line_of: BTreeMap<u64, usize> = BTreeMap::new();
+    let mut line = src.lines().count() as u64;
+    let mut names = vec![];
+    for (k, r) in rows.iter().enumerate() {
+        if r.compile_error.is_some() {
+            continue;
+        }
+        line += 1;
+        line_of.insert(line, k);
+        let relaxed = match &cases[r.case].1 {
+            Obs::Accepted(d) => d.relaxed,
+            _ => cases[r.case].0.relaxed,
+        };
+        src.push_str(&row_source(k, &cases[r.case].0, r.konst, relaxed));
+        src.push('\n');
+        let q = if r.facade && r.facade_error.is_none() {
+            line += 1;
+            line_of.insert(line, k + FOFF);
+            src.push_str(&facade_source(k, &cases[r.case].0, r.konst, relaxed));
+            src.push('\n');
+            format!("Some(q{k} as fn() -> String)")
+        } else {
+            "None".to_string()
+        };
+        names.push(format!("(r{k} as fn() -> (String, String), {q}, {k}usize)"));
+    }
+    src.push_str("static ROWS: &[(fn() -> (String, String), Option<fn() -> String>, usize)] = &[\n");
+    for ch in names.chunks(8) {
+        src.push_str(&ch.join(", "));
+        src.push_str(",\n");
+    }
+    src.push_str("];\n");
+    src.push_str(
+        r#"fn main() {
+    let start: usize = std::env::args().nth(1).map(|s| s.parse().unwrap()).unwrap_or(0);
+    std::panic::set_hook(Box::new(|_| {}));
+    for (f, q, id) in ROWS.iter() {
+        if *id < start {
+            continue;
+        }
+        println!("{}\tBEGIN", id);
+        match std::panic::catch_unwind(*f) {
+            Ok((m, r)) => println!("{}\tROW\t{}\t{}", id, m, r),
+            Err(e) => {
+                let msg = if let Some(s) = e.downcast_ref::<&str>() { s.to_string() } else if let Some(s) = e.downcast_ref::<String>() { s.clone() } else { "?".into() };
+                println!("{}\tPANIC\t{}", id, msg.replace('\n', " "));
+            }
+        }
+        if let Some(q) = q {
+            match std::panic::catch_unwind(*q) {
+                Ok(m) => println!("{}\tFACADE\t{}", id, m),
+                Err(_) => println!("{}\tFACADE\tPANIC", id),
+            }
+        }
+    }
+}
+"#,
+    );
+    (src, line_of)
+}
+
+/// build + run the crate of accepted invocations; fills compile_error / output / died of each row
+fn run_ok_crate(ctx: &mut Ctx, gen: &Gen, name: &str, rows: &mut [OkRow], cases: &[(Case, Obs)]) {
+    let mut rounds = 0;
+    loop {
+        rounds += 1;
+        let (src, line_of) = ok_program(rows, cases);
+        let facade_dep = format!("dashu = {{ path = \"{}\", default-features = false }}\n", gen.repo);
+        if let Err(e) = gen.write_crate(name, true, &facade_dep, &src) {
+            ctx.machinery(format!("cannot write {}: {}", name, e));
+            return;
+        }
+        let b = gen.build(name);
+        if b.ok {
+            break;
+        }
+        let (per_row, stray) = attribute(&b.errors, &line_of);
+        if per_row.is_empty() || rounds > 6 {
+            ctx.machinery(format!("{}: build failed and the errors cannot be attributed to invocations: {} {}", name, crate::core::trunc(&stray.join(" | "), 600), crate::core::trunc(&b.other, 600)));
+            return;
+        }
+        for (k, text) in per_row {
+            if k >= FOFF {
+                rows[k - FOFF].facade_error = Some(text);
+            } else {
+                rows[k].compile_error = Some(text);
+            }
+        }
+    }
+    // run, continuing after a row that kills the process
+    let mut start = 0usize;
+    let mut deaths = 0;
+    loop {
+        let (out, st) = match run_with_input(&gen.bin(name), &[start.to_string()], b"") {
+            Ok(x) => x,
+            Err(e) => {
+                ctx.machinery(format!("{}: {}", name, e));
+                return;
+            }
+        };
+        let mut begun: Option<usize> = None;
+        for l in out.lines() {
+            let mut it = l.splitn(4, '\t');
+            let id: usize = match it.next().and_then(|s| s.parse().ok()) {
+                Some(i) => i,
+                None => continue,
+            };
+            if id >= rows.len() {
+                continue;
+            }
+            match it.next() {
+                Some("BEGIN") => begun = Some(id),
+                Some("ROW") => {
+                    let m = it.next().unwrap_or("").to_string();
+                    let r = it.next().unwrap_or("").to_string();
+                    rows[id].output = Some((m, r));
+                    begun = None;
+                }
+                Some("PANIC") => {
+                    rows[id].died = Some(format!("panic: {}", it.next().unwrap_or("")));
+                    begun = None;
+                }
+                Some("FACADE") => rows[id].facade_out = Some(it.next().unwrap_or("").to_string()),
+                _ => {}
+            }
+        }
+        if st == "exit 0" {
+            break;
+        }
+        deaths += 1;
+        match begun {
+            Some(id) if deaths <= 50 => {
+                rows[id].died = Some(format!("process died: {}", st));
+                start = id + 1;
+            }
+            _ => {
+                ctx.machinery(format!("{}: generated program ended with {} outside a row", name, st));
+                return;
+            }
+        }
+    }
+}
+
+fn err_program(rows: &[usize], cases: &[(Case, Obs)]) -> (String, BTreeMap<u64, usize>) {
+    let mut src = String::from("// generated by dv c20: every line `fn eN` holds one invocation that must not compile\n#![allow(unused_imports, dead_code)]\nuse dashu_macros::*;\n");
+    let mut line_of = BTreeMap::new();
+    let mut line = src.lines().count() as u64;
+    for (k, &ci) in rows.iter().enumerate() {
+        let c = &cases[ci].0;
+        line += 1;
+        line_of.insert(line, k);
+        src.push_str(&format!("fn e{}() {{ let _ = {}!({}); }}\n", k, c.mac(), c.src));
+    }
+    src.push_str("fn main() {}\n");
+    (src, line_of)
+}
 
 pub fn run(ctx: &mut Ctx) {
-    ctx.machinery("check C20 is not built yet");
+    ctx.rule = "programs = macro invocations `M!(tokens)` for M in {ubig, ibig, fbig, dbig, rbig} x {plain, static_}. (1) constructive grammar walk: every magnitude of the listed set x every spelling (decimal, 0b/0o/0x prefixes, `base N` as literal / identifier / suffixed literal, underscores, leading zeros, upper case; floats: point position, trailing/leading zeros, exponent markers and signs, hex-float spellings; ratios: n/d, omitted denominator, prefixes on both or on the numerator only, `~`, signs on both components) x sign x static/plain; (2) every token sequence of length <= L over a 16-token alphabet per macro family, plus a hand-written list of literals at or outside the edge of the grammar. Every program is expanded by the macro crate's own code generators (pre-pass) and the emitted code is decoded; a stated subset is compiled by rustc against the working tree and run. An accepted literal must denote the value (and precision) the run-time parser gives for the same text and the value of the independent reference parser; a literal the run-time parser rejects must be a compile error. non-trivial = documented spelling or accepted literal".into();
+    ctx.assume("the run-time parsers (from_str_radix / from_str_with_radix_prefix / FromStr) are the yardstick named by the property; the reference parser (own code over num_bigint, written from the documentation) is the second yardstick for documented spellings");
+    ctx.assume("white space between tokens is invisible to a proc-macro: the 'same text' is the concatenation of the tokens; for fbig! the one underscore prefix documented in fbig.md is dropped; `~` selects Relaxed");
+    ctx.assume("static_fbig!/static_dbig! are documented to produce unlimited precision; for static floats both the parsed precision and 0 are accepted");
+    ctx.assume("a macro that rejects text the run-time parser would accept (e.g. ubig!(+5)) is allowed: the property quantifies over accepted literals");
+    ctx.assume("the facade forms (`dashu::ubig!` → ubig_embedded!, emitting `::dashu::integer::…` paths) share the parser with the dashu_macros forms; they are compiled for the plain spellings of the quick compile set and must build the identical value");
+    let quick = ctx.quick();
+
+    // reference self-checks
+    {
+        let mut ok = true;
+        for (s, r) in [("0", 10u32), ("1_000", 10), ("ff", 16), ("FF", 16), ("zz", 36), ("_1_", 2), ("340282366920938463463374607431768211455", 10), ("1111", 2), ("777", 8)] {
+            ok &= ref_digits(s, r).map(|v| v.to_string()) == horner_u128(s, r).map(|v| v.to_string());
+        }
+        ok &= ref_digits("_", 10).is_none() && ref_digits("12", 2).is_none() && ref_digits("", 10).is_none() && ref_digits("g", 16).is_none();
+        ok &= ref_int("-0x1f", None, true) == Some(BigInt::from(-31)) && ref_int("-5", None, false).is_none() && ref_int("+7ab", Some(32), false) == Some(BigInt::from(7499));
+        ok &= ref_float("-1.23400e-3", 10) == Some((BigInt::from(-123400), -8, 6)) && ref_float("-123.4@-05", 10) == Some((BigInt::from(-1234), -6, 4));
+        ok &= ref_float("0x03.efp-2", 2) == Some((BigInt::from(0x3ef), -10, 16)) && ref_float("11.001", 2) == Some((BigInt::from(0b11001), -3, 5)) && ref_float("1.101B-3", 2) == Some((BigInt::from(0b1101), -6, 4));
+        ok &= ref_float("0x1.234p-3", 10).is_none() && ref_float("1p3", 2).is_none() && ref_float(".", 10).is_none() && ref_float("00012.34", 10).map(|x| x.2) == Some(7);
+        ok &= ref_ratio("+0o17/25", None) == Some((BigInt::from(0o17), BigInt::from(0o25))) && ref_ratio("-0x1f/-0x1e", None) == Some((BigInt::from(0x1f), BigInt::from(0x1e))) && ref_ratio("0x10/0b11", None).is_none() && ref_ratio("+7ab/-sse", Some(32)) == Some((BigInt::from(-7499), BigInt::from(29582)));
+        // the reader of emitted code, on hand-written expansions
+        let d = decode("ubig", ":: dashu_int :: UBig :: from_dword (123u32 as _)");
+        ok &= matches!(&d, Ok(Dec { val: Val::Int(v), path: Path::Const, .. }) if *v == BigInt::from(123));
+        let d = decode("ibig", ":: dashu_int :: IBig :: from_parts (:: dashu_base :: Sign :: Negative , { const BYTES : [u8 ; 9usize] = [0 , 0 , 0 , 0 , 0 , 0 , 0 , 0 , 1 ,] ; :: dashu_int :: UBig :: from_le_bytes (& BYTES) })");
+        ok &= matches!(&d, Ok(Dec { val: Val::Int(v), path: Path::Heap, .. }) if *v == -BigInt::from(pow2(64)));
+        let d = decode("dbig", ":: dashu_float :: DBig :: from_parts_const (:: dashu_base :: Sign :: Negative , 1234u32 as _ , - 5isize , Some (5usize))");
+        ok &= matches!(&d, Ok(Dec { val: Val::Float { sig, exp: -5, base: 10, prec: 5 }, .. }) if *sig == BigInt::from(-1234));
+        ok &= decode("ubig", ":: dashu_int :: UBig :: from_dword (4294967296u32 as _)").is_err();
+        ok &= split_src("1.5e-3 base 10") == vec!["1.5e-3", "base", "10"] && split_src("0x1._8p-3") == vec!["0x1", ".", "_8p", "-", "3"] && split_src("-_0xae.1f") == vec!["-", "_0xae", ".", "1f"] && split_src("1._5") == vec!["1", ".", "_5"] && split_src("1.e5") == vec!["1", ".", "e5"];
+        if !ok {
+            ctx.machinery("reference parser / expansion reader failed its self-check");
+            return;
+        }
+    }
+
+    let gen = Gen::new();
+    // the expander
+    if let Err(e) = gen.write_crate("c20_pre", false, "proc-macro2 = \"1\"\nquote = \"1\"\npaste = \"1\"\nrustversion = \"1\"\n", &expander_main(&gen.repo)) {
+        ctx.machinery(format!("cannot write gen/c20_pre: {}", e));
+        return;
+    }
+    let t0 = std::time::Instant::now();
+    let b = gen.build("c20_pre");
+    if !b.ok {
+        ctx.machinery(format!("the expander (macros/src/parse/*.rs outside rustc) does not build: {} {}", b.errors.iter().map(|e| e.text.clone()).collect::<Vec<_>>().join(" | "), b.other));
+        return;
+    }
+    ctx.bound("expander_build_wall_s", (t0.elapsed().as_secs_f64() * 10.0).round() / 10.0);
+
+    // universes
+    let ms = mags(quick, ctx.seed);
+    let heavy_f: Vec<BigUint> = [0u64, 1, 5, 12, 255, u32::MAX as u64, 1 << 32, u64::MAX].iter().map(|&x| BigUint::from(x)).chain([pow2(64) + BigUint::one()]).collect();
+    let heavy_r: Vec<BigUint> = [0u64, 1, 2, 6, 255, u32::MAX as u64, 1 << 32].iter().map(|&x| BigUint::from(x)).chain([pow2(64), pow2(128) + BigUint::one()]).collect();
+    let mut ints = vec![];
+    int_cases(&ms, quick, &mut ints);
+    let mut floats = vec![];
+    let fms: Vec<BigUint> = if quick { ms.clone() } else { ms.iter().filter(|m| m.bits() <= 200 || mags_boundary().contains(m)).cloned().collect() };
+    let mut fall = fms.clone();
+    fall.extend(heavy_f.iter().cloned());
+    fall.sort();
+    fall.dedup();
+    float_cases(&fall, &heavy_f, &mut floats);
+    let mut ratios = vec![];
+    let rms: Vec<BigUint> = if quick { mags_boundary().into_iter().chain(ms.iter().filter(|m| m.bits() % 16 == 0 || m.bits() % 16 == 1).cloned()).collect() } else { ms.iter().filter(|m| m.bits() <= 200 || mags_boundary().contains(m)).cloned().collect() };
+    let mut rall = rms.clone();
+    rall.sort();
+    rall.dedup();
+    ratio_cases(&rall, &heavy_r, quick, &mut ratios);
+    let maxlen = ctx.pick(3usize, 4usize);
+    let mut tokens = vec![];
+    for fam in [Fam::U, Fam::I, Fam::F, Fam::D, Fam::R] {
+        token_cases(fam, maxlen, &mut tokens);
+    }
+    let mut hand = vec![];
+    invalid_cases(&mut hand);
+    ctx.bound("magnitudes", ms.len() as u64);
+    ctx.bound("magnitude_bits_max", ms.iter().map(|m| m.bits()).max().unwrap_or(0));
+    ctx.bound("token_sequence_max_len", maxlen as u64);
+    ctx.bound("token_alphabet_size", 16);
+    ctx.bound("int_bases", serde_json::json!(if quick { INT_BASES_Q.to_vec() } else { INT_BASES_T.to_vec() }));
+
+    // pre-pass sweeps
+    let o_int = pre_sweep(ctx, &gen, "expansion.int", &ints, &["accepted", "path:const", "path:heap", "path:static-words", "doc-form:dec", "doc-form:prefix-hex", "doc-form:prefix-bin", "doc-form:prefix-oct", "doc-form:base36", "doc-form:base3"]);
+    let o_float = pre_sweep(ctx, &gen, "expansion.float", &floats, &["accepted", "path:const", "path:heap", "path:static-words", "path:static-const", "precision:equal", "precision:equal,zero-significand", "precision:static-words-unlimited(documented)"]);
+    let o_ratio = pre_sweep(ctx, &gen, "expansion.ratio", &ratios, &["accepted", "path:const", "path:heap", "path:static-words", "relaxed:equal-value-different-representation"]);
+    let _o_tok = pre_sweep(ctx, &gen, "expansion.tokens", &tokens, &["accepted", "rejected", "rejected:as-the-run-time-parser", "unspecified:macro-stricter-than-run-time-parser"]);
+    let o_hand = pre_sweep(ctx, &gen, "expansion.hand-written", &hand, &["accepted", "rejected", "rejected:as-the-run-time-parser"]);
+
+    // compiled layer
+    let tier_level = if quick { 1 } else { 2 };
+    let mut comp: Vec<(Case, Obs)> = vec![];
+    for (cs, os) in [(&ints, &o_int), (&floats, &o_float), (&ratios, &o_ratio), (&hand, &o_hand)] {
+        for (c, o) in cs.iter().zip(os.iter()) {
+            if c.compile != 0 && c.compile <= tier_level {
+                comp.push((c.clone(), o.clone()));
+            }
+        }
+    }
+    let replay = replay_target(ctx);
+    if replay.as_ref().map_or(false, |(s, _)| s != "compiled") {
+        return;
+    }
+    // a replay compiles only its own invocation (the index is the position in the stable list of
+    // compiled cases, so it denotes the same literal on every tree)
+    let only: Option<usize> = replay.as_ref().map(|(_, i)| *i as usize);
+    if let Some(i) = only {
+        if i >= comp.len() {
+            ctx.machinery(format!("replay index {} outside the compiled list ({})", i, comp.len()));
+            return;
+        }
+        let cs = vec![comp[i].0.clone()];
+        match expand_all(&gen, &cs, 1, None) {
+            Ok(mut os) => comp[i].1 = os.pop().unwrap(),
+            Err(e) => {
+                ctx.machinery(format!("replay: {}", e));
+                return;
+            }
+        }
+    }
+    let chosen = |i: usize| only.map_or(true, |o| o == i);
+    // expansions the reader could not interpret are still compiled and run: rustc is the judge
+    for x in comp.iter_mut() {
+        if let Obs::Undecodable(_) = &x.1 {
+            let val = rt_parse(&x.0).unwrap_or(Val::Int(BigInt::zero()));
+            x.1 = Obs::Accepted(Dec { val, prec: None, relaxed: x.0.relaxed, path: Path::Unknown });
+        }
+    }
+    let ok_idx: Vec<usize> = (0..comp.len()).filter(|&i| chosen(i) && matches!(comp[i].1, Obs::Accepted(_))).collect();
+    let err_idx: Vec<usize> = (0..comp.len()).filter(|&i| chosen(i) && matches!(comp[i].1, Obs::Rejected(_))).collect();
+    ctx.bound("compiled_invocations_expected_to_compile", ok_idx.len() as u64);
+    ctx.bound("compiled_invocations_expected_to_fail", err_idx.len() as u64);
+    ctx.bound("generated_crate_profile", "dev profile, opt-level 1: debug assertions and overflow checks of the library are on; dashu crates with default-features = false");
+    let (ok_name, err_name) = if replay.is_some() { ("c20_ok_replay", "c20_err_replay") } else { ("c20_ok", "c20_err") };
+
+    // --- gen/c20_ok: build, run
+    let mut rows: Vec<OkRow> = ok_idx
+        .iter()
+        .map(|&ci| {
+            let konst = match &comp[ci].1 {
+                Obs::Accepted(d) => constable(&comp[ci].0, d),
+                _ => false,
+            };
+            let c = &comp[ci].0;
+            let facade = c.doc && c.compile == 1 && !c.form.contains("zeros") && !c.form.contains("underscores") && !c.form.contains("suffixed") && !c.form.contains("prefix-bin") && !c.form.contains("base3,") && !c.src.starts_with(['-', '+']);
+            OkRow { case: ci, konst, compile_error: None, output: None, died: None, facade, facade_error: None, facade_out: None }
+        })
+        .collect();
+    let t0 = std::time::Instant::now();
+    if !rows.is_empty() {
+        run_ok_crate(ctx, &gen, ok_name, &mut rows, &comp);
+    }
+    let ok_wall = t0.elapsed().as_secs_f64();
+    let ok_pos: BTreeMap<usize, usize> = rows.iter().enumerate().map(|(k, r)| (r.case, k)).collect();
+
+    // --- gen/c20_err: build with JSON diagnostics
+    let t0 = std::time::Instant::now();
+    let mut err_row: BTreeMap<usize, String> = BTreeMap::new();
+    let err_pos: BTreeMap<usize, usize> = err_idx.iter().enumerate().map(|(k, &ci)| (ci, k)).collect();
+    if !err_idx.is_empty() {
+        let (src, line_of) = err_program(&err_idx, &comp);
+        if let Err(e) = gen.write_crate(err_name, true, "", &src) {
+            ctx.machinery(format!("cannot write {}: {}", err_name, e));
+            return;
+        }
+        let b = gen.build(err_name);
+        if !b.ok && b.errors.is_empty() {
+            ctx.machinery(format!("{}: build failed without diagnostics in the generated crate: {}", err_name, crate::core::trunc(&b.other, 600)));
+            return;
+        }
+        let (per_row, stray) = attribute(&b.errors, &line_of);
+        if !stray.is_empty() {
+            ctx.machinery(format!("{}: compile errors outside the invocation lines: {}", err_name, crate::core::trunc(&stray.join(" | "), 600)));
+        }
+        err_row = per_row;
+    }
+    let err_wall = t0.elapsed().as_secs_f64();
+
+    let (rows_ref, comp_ref) = (&rows, &comp);
+    ctx.sweep("compiled", comp.len() as u64, |i, rec| {
+        let (c, o) = &comp_ref[i as usize];
+        match o {
+            Obs::Accepted(pre) => {
+                let r = match ok_pos.get(&(i as usize)) {
+                    Some(k) => &rows_ref[*k],
+                    None => return,
+                };
+                rec.nontrivial();
+                let case = || format!("{} [compiled by rustc{}; run-time text {:?}]", c.show(), if r.konst { " in a const item" } else { "" }, c.text);
+                if let Some(e) = &r.compile_error {
+                    rec.step();
+                    rec.fail(format!("{}|{}!|expansion-does-not-compile|{},{}", P, c.mac(), pre.path.name(), if r.konst { "const-item" } else { "let" }), case(), format!("rustc: {}", e), format!("compiles{} and yields {}", if r.konst { " (documented: small literals can be assigned to a constant)" } else { "" }, pre.val.show()));
+                    return;
+                }
+                if let Some(d) = &r.died {
+                    rec.step();
+                    rec.fail(format!("{}|{}!|run-time-failure|{}", P, c.mac(), pre.path.name()), case(), d.clone(), format!("yields {}", pre.val.show()));
+                    return;
+                }
+                let (m, rt) = match &r.output {
+                    Some(x) => x,
+                    None => {
+                        rec.fail(format!("{}|harness|row-without-output|{}", P, fam_mac(c.fam)), case(), "no output line", "a row");
+                        return;
+                    }
+                };
+                let mv = match parse_dump(c.fam, m) {
+                    Some(v) => v,
+                    None => {
+                        rec.fail(format!("{}|harness|unreadable-row|{}", P, fam_mac(c.fam)), case(), m.clone(), "a value dump");
+                        return;
+                    }
+                };
+                rec.hit(if r.konst { "const-item" } else if c.stat { "static-reference" } else { "let-binding" });
+                // the value really built, judged like the decoded one
+                let built = Dec { val: mv.clone(), prec: match &mv { Val::Float { prec, .. } => Some(*prec), _ => None }, relaxed: pre.relaxed, path: pre.path };
+                if !judge(rec, c, &Obs::Accepted(built), "compiled") {
+                    return;
+                }
+                // the generated program's own run-time parse (no_std build of the library)
+                rec.step();
+                if let Some(e) = rt.strip_prefix("ERR:") {
+                    if rt_parse(c).is_ok() {
+                        rec.fail(format!("{}|{}|run-time-parser-differs-between-builds|err-vs-ok", P, fam_mac(c.fam)), case(), format!("generated program: {}", e), "Ok as in the harness build");
+                    }
+                } else {
+                    match parse_dump(c.fam, rt) {
+                        Some(rv) => {
+                            let same = match (&mv, &rv) {
+                                (Val::Float { sig: s1, exp: e1, prec: p1, .. }, Val::Float { sig: s2, exp: e2, prec: p2, .. }) => s1 == s2 && e1 == e2 && (p1 == p2 || (c.stat && *p1 == 0)),
+                                (a, b) => a == b || (c.relaxed && same_value(a, b)),
+                            };
+                            if same {
+                                rec.hit("identical-to-run-time-parse-in-the-same-program");
+                            } else {
+                                rec.fail(format!("{}|{}!|differs-from-run-time-parse|{}", P, c.mac(), pre.path.name()), case(), mv.show(), rv.show());
+                            }
+                        }
+                        None => rec.fail(format!("{}|harness|unreadable-row|{}", P, fam_mac(c.fam)), case(), rt.clone(), "a value dump"),
+                    }
+                }
+                // the facade macro (`dashu::M!` → `M_embedded!`) must build the identical value
+                if r.facade {
+                    rec.step();
+                    match (&r.facade_error, &r.facade_out) {
+                        (Some(e), _) => rec.fail(format!("{}|dashu::{}!|expansion-does-not-compile|{}", P, c.mac(), pre.path.name()), case(), format!("rustc: {}", e), "compiles like the dashu_macros form"),
+                        (None, Some(f)) if f == m => rec.hit("facade:identical"),
+                        (None, f) => rec.fail(format!("{}|dashu::{}!|differs-from-dashu_macros-form|{}", P, c.mac(), pre.path.name()), case(), format!("{:?}", f), m.clone()),
+                    }
+                }
+                // the pre-pass must have predicted the same number
+                if pre.path == Path::Unknown {
+                    rec.hit("pre-pass-could-not-read-the-expansion");
+                    return;
+                }
+                rec.step();
+                if same_value(&pre.val, &mv) {
+                    rec.hit("pre-pass-agrees");
+                } else {
+                    rec.fail(format!("{}|{}!|constructor-changes-value|{}", P, c.mac(), pre.path.name()), case(), format!("built {}", mv.show()), format!("emitted code denotes {}", pre.val.show()));
+                }
+                rec.sample(|| format!("{} -> {}", c.show(), mv.show()));
+            }
+            Obs::Rejected(_) => {
+                let k = match err_pos.get(&(i as usize)) {
+                    Some(k) => *k,
+                    None => return,
+                };
+                rec.nontrivial();
+                match err_row.get(&k) {
+                    Some(e) => {
+                        rec.hit("compile-error");
+                        rec.hit(if e.contains("proc macro panicked") || e.contains("proc-macro") { "error:proc-macro-panic" } else { "error:other" });
+                        // whether the literal had to be rejected is judged exactly as in the pre-pass
+                        judge(rec, c, &Obs::Rejected(crate::core::trunc(e, 200)), "compiled");
+                    }
+                    None => {
+                        rec.step();
+                        rec.fail(format!("{}|{}!|rustc-accepts-what-the-expander-rejects|{}", P, fam_mac(c.fam), anomaly(c)), format!("{} [compiled by rustc]", c.show()), "no compile error on the invocation line", "a compile error (the macro's code generator panics on this token stream outside rustc)");
+                    }
+                }
+                rec.sample(|| format!("{} -> {}", c.show(), err_row.get(&k).map(|e| crate::core::trunc(e, 80)).unwrap_or_default()));
+            }
+            other => {
+                // undecodable / unlexable cases were reported by the pre-pass sweep
+                rec.hit(match other {
+                    Obs::Skipped => "skipped:not-selected",
+                    _ => "skipped:reported-by-the-pre-pass",
+                });
+            }
+        }
+    });
+    if let Some(s) = ctx.sweeps.iter_mut().find(|s| s.name == "compiled") {
+        s.extra.insert("c20_ok_build_and_run_wall_s".into(), serde_json::json!((ok_wall * 10.0).round() / 10.0));
+        s.extra.insert("c20_err_build_wall_s".into(), serde_json::json!((err_wall * 10.0).round() / 10.0));
+        s.extra.insert("invocations_in_c20_ok".into(), serde_json::json!(rows.len()));
+        s.extra.insert("invocations_in_c20_err".into(), serde_json::json!(err_idx.len()));
+    }
+    ctx.require_classes("compiled", &["const-item", "static-reference", "let-binding", "path:const", "path:heap", "path:static-words", "path:static-const", "identical-to-run-time-parse-in-the-same-program", "pre-pass-agrees", "precision:equal", "compile-error", "error:proc-macro-panic", "rejected:as-the-run-time-parser", "facade:identical"]);
 }
